@@ -28,6 +28,7 @@ class GenOpts(object):
         self.allow_unset = True
         self.unset_bias = (12, 15)    # 1/n of union arms / struct members are left unset
         self.allow_const_refs = True
+        self.chain_focus = 0          # 1/n of schemas end with typedef -> struct/union -> enumerator-sized array chains
         self.tail_focus = 0           # 1/n of schemas end with a (struct ending in greedy, struct ending in that struct) pair
         self.const_ref_bias = 6      # 1/n of sizes / discriminators refer to a constant when one fits
         self.const_exprs = False      # constants / enumerators given as expressions over earlier names
@@ -95,6 +96,8 @@ class _Builder(object):
             n = self.draw(st.integers(1, 5))
         else:
             n = [16, 255, 256, 300, 7, 8][d - 34]
+        if n == 5 and self.draw(st.booleans()):
+            n = 6       # even sizes > 2 can be written as size x size2 in isar
         expr = None
         if self.o.allow_const_refs and self.small_consts and self.draw(st.integers(0, self.o.const_ref_bias - 1)) == 0:
             name, n = self.draw(st.sampled_from(self.small_consts))
@@ -315,7 +318,35 @@ class _Builder(object):
             self.add_struct()
         if self.o.tail_focus and self.o.allow_greedy and self.draw(st.integers(0, self.o.tail_focus - 1)) == 0:
             self.add_tail_pair()
+        if self.o.chain_focus and self.draw(st.integers(0, self.o.chain_focus - 1)) == 0:
+            self.add_dependency_chain()
         return Schema(self.decls)
+
+    def add_dependency_chain(self):
+        """typedef -> struct / union -> (array size / discriminator) enumerator or constant: a definition that is
+        needed only through an expression of a type that something else refers to by name."""
+        en = self.fresh('E')
+        k = self.draw(st.integers(2, 5))
+        self.decls.append(Enum(en, [[en + '_a', k, str(k)], [en + '_b', k + 3, str(k + 3)]]))
+        self.stiff[en] = FIXED
+        cn = self.fresh('K')
+        self.decls.append(Const(cn, 3, '3'))
+        ref = self.draw(st.sampled_from([(en + '_a', k), (cn, 3)]))
+        sn = self.fresh('S')
+        kind = self.draw(st.sampled_from([FIXARR, LIMARR]))
+        t = self.draw(st.sampled_from(self.numeric_pool()))
+        self.decls.append(Struct(sn, [Member('hd', 'u8'), Member('arr', t, kind, ref[1], size_expr=ref[0])]))
+        self.stiff[sn] = FIXED
+        self.vec[sn] = kind == LIMARR
+        un = self.fresh('U')
+        self.decls.append(Union(un, [Arm(k, 'u16', 'p', disc_expr=en + '_a'), Arm(k + 3, sn, 'q', disc_expr=en + '_b')]))
+        self.stiff[un] = FIXED
+        self.vec[un] = self.vec[sn]
+        for target in (sn, un):
+            tn = self.fresh('T')
+            self.decls.append(Typedef(tn, target))
+            self.stiff[tn] = FIXED
+            self.vec[tn] = self.vec[target]
 
     def add_tail_pair(self):
         """An unlimited struct nested as the tail of another struct, with and without dynamic fields around it:
